@@ -32,13 +32,14 @@ theorem cleanRow_of_chars (p : Str) (hne : p ≠ []) (h : ∀ c ∈ p, c ∈ not
   rw [dropWhile_eq_self isWs p h1, dropWhile_eq_self isWs p.reverse (fun c hc => h1 c (List.mem_reverse.mp hc)),
     List.reverse_reverse]
 
-/-- **The emitted rows are clean** (hypotheses of `written_events`, at least one column). -/
-theorem written_rows_clean (keys : Nat) (hk : 0 < keys) (E : List SEv) (hE : EventsOK keys E) (ms : List Int)
+/-- **The emitted measures**: none is empty, every row is non-empty and consists of note characters (hypotheses of
+`written_events`, at least one column). -/
+theorem written_rows_chars (keys : Nat) (hk : 0 < keys) (E : List SEv) (hE : EventsOK keys E) (ms : List Int)
     (out : List (List Str)) (hasc : AscAbove (-1) ms) (hmem : ∀ m, m ∈ ms ↔ ∃ s ∈ E.map slotOfEv, s.measure = m)
     (hw : writeLoop keys (E.map slotOfEv) (-1) ms = .ok out) :
-    ∀ rows ∈ out, ∀ p ∈ rows, CleanRow p := by
+    ∀ rows ∈ out, rows ≠ [] ∧ ∀ p ∈ rows, p ≠ [] ∧ ∀ c ∈ p, c ∈ noteChars := by
   obtain ⟨_, hidx⟩ := writeLoop_index keys (E.map slotOfEv) ms (-1) out hasc hw
-  intro rows hrows p hp
+  intro rows hrows
   obtain ⟨i, hil, rfl⟩ := List.getElem_of_mem hrows
   obtain ⟨hfill, hpadc⟩ := hidx i hil
   have hneg : (-1 : Int) + 1 + (i : Int) = (i : Int) := by omega
@@ -49,9 +50,16 @@ theorem written_rows_clean (keys : Nat) (hk : 0 < keys) (E : List SEv) (hE : Eve
       have := hfill him
       rw [hG] at this
       exact (Except.ok.inj this).symm
-    rw [hGeq] at hp
+    rw [hGeq]
+    refine ⟨?_, ?_⟩
+    · intro h
+      have := hrect.1
+      rw [h] at this
+      simp at this
+      omega
+    intro p hp
     have hlen : p.length = keys := hrect.2 p hp
-    apply cleanRow_of_chars
+    refine ⟨?_, ?_⟩
     · intro h; rw [h] at hlen; simp at hlen; omega
     · intro ch hch
       obtain ⟨r, hr, rfl⟩ := List.getElem_of_mem hp
@@ -70,13 +78,23 @@ theorem written_rows_clean (keys : Nat) (hk : 0 < keys) (E : List SEv) (hE : Eve
         rw [hcv] at hz
         rw [hz]; simp [noteChars]
   · have hp' := hpadc him
-    rw [hp'] at hp
+    rw [hp']
+    refine ⟨by simp [paddingMeasure, metronome], ?_⟩
+    intro p hp
     simp only [paddingMeasure, List.mem_replicate] at hp
     rw [hp.2]
-    apply cleanRow_of_chars
-    · simp
-    · intro c hc
-      simp at hc
-      rw [hc]; simp [noteChars]
+    refine ⟨by simp, ?_⟩
+    intro c hc
+    simp at hc
+    rw [hc]; simp [noteChars]
+
+/-- **The emitted rows are clean** (hypotheses of `written_events`, at least one column). -/
+theorem written_rows_clean (keys : Nat) (hk : 0 < keys) (E : List SEv) (hE : EventsOK keys E) (ms : List Int)
+    (out : List (List Str)) (hasc : AscAbove (-1) ms) (hmem : ∀ m, m ∈ ms ↔ ∃ s ∈ E.map slotOfEv, s.measure = m)
+    (hw : writeLoop keys (E.map slotOfEv) (-1) ms = .ok out) :
+    ∀ rows ∈ out, ∀ p ∈ rows, CleanRow p := by
+  intro rows hrows p hp
+  obtain ⟨hne, hch⟩ := (written_rows_chars keys hk E hE ms out hasc hmem hw rows hrows).2 p hp
+  exact cleanRow_of_chars p hne hch
 
 end Reamber.SM
